@@ -5,8 +5,11 @@ ROOT = os.path.dirname(os.path.dirname(os.path.abspath(__file__)))
 import glob
 cfg = json.load(open(os.path.join(ROOT, "cfg", "_defaults.json")))
 cfg["checks"] = {}
+# only checks the lead has reviewed and accepted are claimed (cfg/_registered.json)
+registered = set(json.load(open(os.path.join(ROOT, "cfg", "_registered.json"))))
 for fp in sorted(glob.glob(os.path.join(ROOT, "cfg", "C*.json"))):
-    cfg["checks"][os.path.basename(fp)[:-5]] = json.load(open(fp))
+    if os.path.basename(fp)[:-5] in registered:
+        cfg["checks"][os.path.basename(fp)[:-5]] = json.load(open(fp))
 props = [json.loads(l) for l in open(os.path.join(ROOT, "properties.jsonl"))]
 hooks = json.load(open(os.path.join(ROOT, "hooks.json")))
 checks = []
